@@ -498,6 +498,10 @@ func (o0 C04Opts) Coq() string {
 
 func (o C04Opts) goOpts() []openapi3.ValidationOption {
 	var out []openapi3.ValidationOption
+	if o.Noop {
+		// first, so that it cannot undo a DisableSchemaPatternValidation asked for below
+		out = append(out, openapi3.EnableSchemaPatternValidation())
+	}
 	if len(o.Allowed) > 0 {
 		out = append(out, openapi3.AllowExtraSiblingFields(o.Allowed...))
 	}
@@ -515,9 +519,6 @@ func (o C04Opts) goOpts() []openapi3.ValidationOption {
 	}
 	if o.NoExt {
 		out = append(out, openapi3.ProhibitExtensionsWithRef())
-	}
-	if o.Noop {
-		out = append(out, openapi3.EnableSchemaPatternValidation())
 	}
 	for _, n := range o.Seq {
 		out = append(out, c04SeqOpts[n]())
